@@ -112,6 +112,24 @@ theorem ge_num {a b : Nat} (hb128 : b ≤ ALL1) (h : a = V4NO → ¬ HighV6 b) :
   · simp only [h1, if_false, Bool.false_eq_true]
     simp [matchIPAddr_nonneg]
 
+/-- the comparators' order (operators or plain byte order, see `aLt`) is numeric under the same side conditions -/
+theorem aLt_num {a b : Nat} (h : a = V4ANY → ¬ LowV6 b) : aLt a b = decide (a < b) := by
+  unfold aLt; split
+  · simp [matchIPAddr_neg]
+  · exact lt_num h
+theorem aLe_num {a b : Nat} (h : a = V4ANY → ¬ LowV6 b) : aLe a b = decide (a ≤ b) := by
+  unfold aLe; split
+  · simp [matchIPAddr_nonpos]
+  · exact le_num h
+theorem aGt_num {a b : Nat} (hb128 : b ≤ ALL1) (h : a = V4NO → ¬ HighV6 b) : aGt a b = decide (a > b) := by
+  unfold aGt; split
+  · simp [matchIPAddr_pos]
+  · exact gt_num hb128 h
+theorem aGe_num {a b : Nat} (hb128 : b ≤ ALL1) (h : a = V4NO → ¬ HighV6 b) : aGe a b = decide (a ≥ b) := by
+  unfold aGe; split
+  · simp [matchIPAddr_nonneg]
+  · exact ge_num hb128 h
+
 /-! ### well-formed stored values -/
 
 /-- what `FactoryParse` and `MakeCombinedValue` produce: a prefix mask with `k` host bits, both addresses aligned to it,
@@ -250,7 +268,7 @@ theorem networkCompare_spec {v : Val} {k : Nat} (w : v.WF k) {x : Nat} (hx : x <
   · have hany' : isAnyAddr v.addr2 = false := by simpa using hany
     have hord := w.ord hany'
     simp only [hany', Bool.false_eq_true, if_false]
-    rw [ge_num (by have := w.h1; rw [ALL1_eq]; omega) hq2, le_num hq1]
+    rw [aGe_num (by have := w.h1; rw [ALL1_eq]; omega) hq2, aLe_num hq1]
     unfold matchIPAddr
     by_cases c1 : x < v.addr1
     · have h5 : x - x % 2 ^ k < v.addr1 := by omega
